@@ -631,21 +631,24 @@ class C20(fw.Property):
     quick_budget = 200
     thorough_budget = 6000
     design_ref = "DESIGN.md section 23"
-    technique = ("Coq invariant / frame proofs over an executable model of CommonRD + Registration + the RD resources with the lifetime timers on a "
+    technique = ("Coq refinement proof (concrete heap+indexes+timers model -> abstract directory spec) with invariant / frame lemmas over an executable model of CommonRD + Registration + the RD resources with the lifetime timers on a "
                  "virtual clock; differential correspondence of the model with the real StandaloneResourceDirectory on request/time histories; "
                  "independent RFC 9176 shadow-directory oracle on the implementation's answers")
     level_text = ("Theorems (closed under the global context) over a hand-written model of aiocoap/cli/rd.py for ALL histories of register / re-register / "
-                  "update POST / PUT / DELETE / GET / lookups / time passage: index bijection invariant (_by_key and _by_path hold the same objects, one per "
-                  "(ep,d), one per location), the delete closures never raise, a registration is listed iff its lifetime timer is pending and not due, time "
-                  "passage removes exactly the registrations whose lifetime+grace has passed and leaves the others untouched, re-registration keeps the location "
-                  "and new registrations get an unused one, every request answered 4.xx leaves the complete state unchanged and no handler answers 5.00, other registrations are untouched "
-                  "by a write, unfiltered lookups render exactly the indexed registrations. The model is tied to the code by running both on the same histories "
-                  "and comparing every answer, both lookup payloads as text, both indexes, lifetimes and pending expiry instants after every step.")
+                  "update POST / PUT / DELETE / GET / lookups / time passage. Main theorem C20_refinement: the model (heap of Registration objects, _by_key, _by_path, "
+                  "lifetime timers) refines an abstract directory (ep,d) -> (location, lt, base, parameters, links, instant of the latest successful write) that changes "
+                  "only on successful writes/removals and drops an entry when write + lt + grace has passed: every answer is the abstract directory's answer, the state "
+                  "abstracts to its state, and the lookups render exactly its entries, each within its lifetime, one per (ep,d), no shared location. Supporting theorems: "
+                  "index bijection invariant, closures never raise, 4.xx (indeed every error answer) leaves the complete state unchanged and no handler answers 5.00, "
+                  "re-registration keeps the location, exact expiry, frame of writes, lookups with any list of criteria list exactly the live registrations matching all "
+                  "of them with pagination last. The model is tied to the code by running both on the same histories and comparing every answer, both lookup payloads "
+                  "as text, both indexes, lifetimes and pending expiry instants after every step.")
     level_note = ("Hand-written model (tie C only; no translated kernel). Trusted: the correspondence run (sampled histories), harness/simloop.py as an ideal timer "
-                  "service, the plugin's own link-format writer/reader. Not modelled: SimpleRegistration (.well-known/rd, needs an outgoing request), the proxy "
-                  "extension (proxy_domain is None: every proxy=... is 4.00), observation notifications of the lookup resources, key case-insensitivity of "
-                  "Link.__contains__, Unicode digits/whitespace in int(), urljoin outside the grammar stated in Model/C20Str.v, valueless anchor attributes. "
-                  "One open finding (multi-criteria lookups apply only the last criterion) is modelled faithfully and listed in known_findings.d/C20.json; five others found by this check were fixed in /repo (f8ef49b, 5a5d1e7).")
+                  "service, the plugin's own link-format writer/reader. What the parameters of a write set (update_params, registration parameter handling) is shared "
+                  "between model and abstract directory; the refinement is about heap, indexes, timers, locations, atomicity and what lookups show. Not modelled: "
+                  "SimpleRegistration (.well-known/rd, needs an outgoing request), the proxy extension (proxy_domain is None: every proxy=... is 4.00), observation "
+                  "notifications of the lookup resources, key case-insensitivity of Link.__contains__, Unicode digits/whitespace in int(), urljoin outside the grammar "
+                  "stated in Model/C20Str.v, valueless anchor attributes. Six defects found by this check were fixed in /repo (f8ef49b, 5a5d1e7, 212d645); no open finding.")
     rule = ("stream helpers (1 in 8) = the model's urljoin / int() / str.split() / query splitting against CPython's on scheme x authority x path x reference tables and "
             "random digit strings. stream history = 3..26 steps: register (28 %: names a/b/node1/'' x sectors -/x/y, 70 % clean parameters, else 1-2 injected faults among invalid/valueless/"
             "duplicate lt, valueless/duplicate base, ep missing/duplicate/valueless, d duplicate/valueless, forbidden keys rt/href/page/count/anchor/proxy; content-format "
